@@ -323,6 +323,62 @@ def run(ctx):
                             p = cfg.reaches_without(fp, (b, i), lambda x, hh=h: False, is_dec, stop_blocks={h}) if False else None
                             ok = _dec_follows(fp, b, i, h, body, is_dec)
                             ctx.check(ok, "R15.5", fp, "written-word-is-charged@%s" % _rel(fp, e), "a word is written at line %s and the iteration can end without the budget being reduced" % e.get("ln"), (fp, e.get("ln")))
+            # (d) a word stays on the current line only when it fits into what is left, or when it would not fit on a line of its
+            # own either ("a single unbreakable word forces it"): every no-break path carries a comparison that implies
+            #   len + 1 <= budget        or        len + 1 > width - pad
+            from sa import linear
+            nb = 0
+            for h, body in loops:
+                entry = [to for to, lab in fp.succs(h) if lab == "true" and to in body]
+                if not entry:
+                    continue
+                for b in sorted(body):
+                    for i, e in enumerate(fp.elems(b)):
+                        if e.get("expr") is None or not ("<<" in fmt(e["expr"]) and _inserts_loop_var(fp, e, body)):
+                            continue
+                        m = re.search(r"<< (\w+)\)*$", fmt(e["expr"]))
+                        wv = m.group(1) if m else "word"
+                        L = "%s.size()" % wv
+                        fits = ({L: 1, bud: -1}, -1)
+                        forced = ({width: 1, pad: -1, L: -1}, 0)
+                        paths = [[(b, None)]] if b == entry[0] else cfg.acyclic_paths(fp, entry[0], b, within=body)
+                        for path in paths:
+                            brk = False
+                            for (pb, _) in path:
+                                for j, e2 in enumerate(fp.elems(pb)):
+                                    if pb == b and j > i:
+                                        break
+                                    t2 = fmt(e2["expr"]) if e2.get("expr") is not None else ""
+                                    if "endl" in t2 or "'\\n'" in t2 or '"\\n"' in t2:
+                                        brk = True
+                            if brk:
+                                continue
+                            nb += 1
+                            lits, unknown = [], []
+                            for (pb, lab) in path:
+                                c = fp.term(pb).get("cond")
+                                if c is None or lab not in ("true", "false"):
+                                    continue
+                                c = ir.unwrap(c)
+                                pol = lab == "true"
+                                while isinstance(c, dict) and c.get("k") == "un" and c.get("op") == "!":
+                                    c, pol = ir.unwrap(c["e"]), not pol
+                                hs = linear.halfspace(c)
+                                if hs is None:
+                                    unknown.append(fmt(c))
+                                else:
+                                    lits.append(hs if pol else linear.neg(hs))
+                            good = [x for x in lits if linear.implies(x, fits) or linear.implies(x, forced)]
+                            construct = "no-break-only-if-fits-or-forced@%s:B%s" % (_rel(fp, e), "-".join(str(pb) for pb, _ in path))
+                            if good:
+                                ctx.ok("R15.5", fp, construct, linear.show(good[0]), (fp, e.get("ln")))
+                            elif unknown:
+                                ctx.broken("R15.5", fp, construct, "the word is written without a line break under conditions that are not linear comparisons (%s): idiom not recognised" % unknown, (fp, e.get("ln")))
+                            else:
+                                ctx.bad("R15.5", fp, construct, "the word is written at line %s without a line break although nothing on that path says that it fits into what is left (%s + 1 <= %s) or that it "
+                                        "would not fit on a line of its own (%s + 1 > %s - %s) [path knows: %s]: a word that exactly fills a fresh line is appended to the current one, which then "
+                                        "exceeds the width although no single word forces it" % (e.get("ln"), L, bud, L, width, pad, "; ".join(linear.show(x) for x in lits) or "nothing"), (fp, e.get("ln")))
+            ctx.need("R15.5", "no-break paths in the word loop", nb, 2)
     # ---- R15.6: the layout is a function of the declarations alone - fixed width, nothing read from the process environment
     ctx.rule("R15.6", "every call of the wrapping routine on the usage path passes a constant width of at most 80; nothing reachable from usage() reads the environment")
     ureach = cg.reachable([usage.id])
@@ -398,6 +454,41 @@ def run(ctx):
             # the private buffer must stay private: nothing of the target stream's state may be copied into it
             leaks = [fmt(n) for _, _, e in bf.roots() for n in elem_calls(e) if n.get("this") is not None and fmt(n["this"]) == buf and any(fmt(ir.unwrap(a)).startswith(target) for a in n.get("args", []))]
             ctx.check(not leaks, "R15.4", bf, "line-buffer-independent-of-target", "the line buffer takes state from the target stream (%s): padding/fill then depends on the stream the usage is written to" % leaks, bf)
+    # the default hint is there for EVERY declared default (the empty string included - such an option is not required)
+    from . import C03
+    lg15 = logic.Logic(prog, cg)
+    for k in ("option", "multi_option"):
+        fd = one(ctx, "R15.4", NS + k + "::format_default")
+        if not fd:
+            continue
+        npth = 0
+        try:
+            paths = cfg.acyclic_paths(fd, fd.entry, fd.exit)
+        except RuntimeError:
+            ctx.broken("R15.4", fd, "default-hint-for-every-default", "too many paths", fd)
+            continue
+        for path in paths:
+            rets = [e["expr"].get("e") for (b, _) in path for e in fd.elems(b) if e.get("expr") is not None and e["expr"].get("k") == "return"]
+            if len(rets) != 1:
+                continue
+            r = ir.unwrap(rets[0])
+            empty = isinstance(r, dict) and ((r.get("k") == "construct" and not [a for a in r.get("args", []) if not (isinstance(a, dict) and a.get("k") == "defarg")])
+                                             or (r.get("k") == "lit" and r.get("v") == "") or (r.get("k") == "init_list" and not r.get("elems")))
+            if not empty:
+                continue
+            npth += 1
+            conds = [C03.HAS_DEFAULT[k]]
+            for (b, lab) in path:
+                c = fd.term(b).get("cond")
+                if c is None or lab not in ("true", "false"):
+                    continue
+                t = lg15.truthy(c, {}, 0)
+                conds.append(t if lab == "true" else logic.Not(t))
+            sat = logic.satisfiable(conds, lg15.axioms)
+            ctx.check(not sat, "R15.4", fd, "default-hint-for-every-default:B%s" % "-".join(str(b) for b, _ in path),
+                      "%s::format_default() returns no hint although a default is declared (%s): the option section does not show that default, the option reads as a required one"
+                      % (k, " && ".join(logic.show(c) for c in conds[1:])[:200]), fd, why_ok="the empty result needs !has_default()")
+        ctx.need("R15.4", "hint-less paths of %s::format_default" % k, npth, 1)
     ctx.assume("the 80-column bound, word wrapping and 'no word lost' are string arithmetic on runtime text: not decided")
 
 
